@@ -142,6 +142,11 @@ def run_family(ctx):
         r = ctx.tlc("RaftConf", ctx.cfg("RaftConf_mc.cfg", {"MaxLog": 3, "RestoreOnRestart": "FALSE"}), timeout=900, heap="8g", name="RaftConf-norestore", count=False)
         if r.violated:
             raise vlib.NoVerdict("RaftConf violates %s with RestoreOnRestart = FALSE (the shipped start-up, which the model says is harmless)" % r.violated)
+        # the shipped start-up of a replica that joined a running group and has stored nothing yet (open finding)
+        rj = ctx.tlc("RaftConf", ctx.cfg("RaftConf_mc.cfg", {"MaxLog": 3, "JoinerKnows": "FALSE"}), timeout=900, heap="8g", name="RaftConf-joiner", count=False)
+        ctx.cov["binding_selftest"]["switch_JoinerKnows_FALSE_gives_counterexample"] = rj.violated
+        if "NoFork" not in rj.violated:
+            raise vlib.NoVerdict("vacuity guard failed: a joiner that bootstraps from an empty store does not violate NoFork")
         rr = ctx.tlc("RaftConf", ctx.cfg("RaftConf_mc.cfg", {"MaxLog": 3, "UpdateOnInstall": "FALSE"}), timeout=900, heap="8g", name="RaftConf-noupdate", count=False)
         ctx.cov["binding_selftest"]["switch_UpdateOnInstall_FALSE_gives_counterexample"] = rr.violated
         if not rr.violated:
